@@ -1,7 +1,22 @@
-import Gnet.Model.Elastic
+/-
+  C01 on the reactor model: byte accounting of every connection is preserved by every
+  accepted round, i.e. for EVERY sequence of environment decisions (events, kernel results
+  incl. short reads/writes, EAGAIN and errors, handler programs, task order) that the real loop
+  can exhibit and the acceptor recognises.
+-/
+import Gnet.Spec.ReactorSpec
+import Gnet.Proofs.ReactorBytes
 namespace Gnet.Props.C01
-open Gnet
+open Gnet.Reactor
 
-theorem placeholder_ering_empty : (⟨none, RbPool.empty⟩ : ERing Nat).abs = [] := by simp [ERing.abs]
+/-- inbound integrity is an invariant of accepted rounds -/
+theorem inbound_integrity (s s' : RState) (toks : List Tok) (hn : NamesNodup s)
+    (h : acceptRound s toks = .ok s') (hi : InvIn s) (hq : Quiet s) : InvIn s' ∧ Quiet s' ∧ NamesNodup s' :=
+  Proofs.ReactorBytes.inbound_integrity s s' toks hn h hi hq
+
+/-- it holds initially -/
+theorem inbound_init (cfg : Cfg) : InvIn { cfg := cfg } ∧ Quiet { cfg := cfg } ∧ NamesNodup { cfg := cfg } :=
+  Proofs.ReactorBytes.inbound_init cfg
 
 end Gnet.Props.C01
+
